@@ -14,7 +14,9 @@ RULE = ("(labels) 1-4 surveys x 1-12 epochs, layouts {disjoint in order, disjoin
         "the tag; offset columns of the design matrix == indicator functions of surveys 2..k in input order (dict: of the "
         "key-sorted surveys, exactly one reference survey with all-zero offset columns). (likelihood) problems of C01 "
         "with >=2 surveys: marginal_ln_likelihood == closed form with the correct labels, and the closed form with "
-        "deliberately permuted labels differs (guard against a vacuous comparison). Non-trivial: >=2 surveys whose "
+        "deliberately permuted labels differs (guard against a vacuous comparison). (plots) plot_rv_curves / "
+        "plot_phase_fold on tagged multi-survey data (list / tuple / dict): every plotted velocity must be an observation "
+        "with exactly its own survey's offset removed. Non-trivial: >=2 surveys whose "
         "time-sorted label sequence differs from the concatenation-order labels (interleaved / reversed / identical epochs).")
 SHARDS = {"quick": 4, "thorough": 16}
 BUDGET = {"quick": 70, "thorough": 700}
@@ -161,6 +163,94 @@ def multi_cases(draw, thorough=False):
     return spec
 
 
+# ----------------------------------------------------------------------------- plotted data carry their own survey's offset
+@st.composite
+def plot_cases(draw):
+    ns = draw(st.integers(2, 4))
+    kind = draw(st.sampled_from(["list", "dict", "dict", "tuple"]))
+    case = {"ns": ns, "kind": kind, "sizes": [draw(st.integers(1, 6)) for _ in range(ns)],
+            "offsets": [gens.rounded(draw(gens.fl(-40, 40)), 6) for _ in range(ns - 1)],
+            "which": draw(st.sampled_from(["rv_curves", "phase_fold"])), "seed": draw(st.integers(0, 10**6)),
+            "unit": draw(st.sampled_from(["km/s", "m/s"]))}
+    if kind == "dict":
+        if draw(st.booleans()):
+            case["keys"] = list(draw(st.permutations(["a", "bb", "c", "D"][:ns])))
+        else:
+            case["keys"] = list(draw(st.permutations([3, 11, 20, 7][:ns])))
+    return case
+
+
+def plot_body_factory(ctx):
+    import astropy.units as u
+    import matplotlib
+    matplotlib.use("Agg")
+    import matplotlib.pyplot as plt
+    from astropy.time import Time
+
+    import thejoker as tj
+
+    def body(case):
+        ns = case["ns"]
+        g = np.random.default_rng(case["seed"])
+        un = og.unit(case["unit"])
+        f = float(og.conv(1.0, "km/s", case["unit"]))
+        ds = []
+        t0 = 57000.0
+        for k in range(ns):
+            n = case["sizes"][k]
+            # surveys one after the other in time (the merged rows then keep concatenation order: defect F5 idle)
+            t = t0 + 100.0 * k + np.sort(g.uniform(0, 50, n))
+            rv = (1000.0 * (k + 1) + np.arange(n)) * f   # tag: survey*1000 + serial (in km/s)
+            ds.append(tj.RVData(t=t, rv=rv * un, rv_err=np.full(n, 0.5 * f) * un))
+        keys = case.get("keys") or list(range(ns))
+        data = {k_: d for k_, d in zip(keys, ds)} if case["kind"] == "dict" else (tuple(ds) if case["kind"] == "tuple" else ds)
+        # which survey is the reference / gets dv0_r: list -> input order, dict -> key order
+        order = sorted(range(ns), key=lambda i: keys[i]) if case["kind"] == "dict" else list(range(ns))
+        s = tj.JokerSamples(n_offsets=ns - 1, t_ref=Time(t0, format="mjd", scale="tcb"))
+        s["P"] = [30.0] * u.day
+        s["e"] = [0.2]
+        s["omega"] = [1.0] * u.rad
+        s["M0"] = [0.5] * u.rad
+        s["s"] = [0.0] * u.km / u.s
+        s["K"] = [3.0] * u.km / u.s
+        s["v0"] = [0.0] * u.km / u.s
+        for r in range(1, ns):
+            s["dv0_%d" % r] = [case["offsets"][r - 1]] * u.km / u.s
+        fig, ax = plt.subplots()
+        try:
+            with ctx.sut("plot_" + case["which"]):
+                if case["which"] == "rv_curves":
+                    tj.plot_rv_curves(s, data=data, ax=ax, rv_unit=un, t_grid=np.linspace(t0, t0 + 10, 8))
+                else:
+                    tj.plot_phase_fold(s, data=data, ax=ax, remove_trend=False)
+            cont = [c for c in ax.containers if type(c).__name__ == "ErrorbarContainer"]
+            if not cont:
+                raise Violation("no data points were drawn")
+            y = np.asarray(cont[0].lines[0].get_ydata(), dtype=float)
+        finally:
+            plt.close(fig)
+        # every plotted point: its tag tells the survey; the survey's own offset (and only that) must have been removed
+        n_tot = sum(case["sizes"])
+        if len(y) != n_tot:
+            raise Violation("plotted %d data points, %d observations given" % (len(y), n_tot))
+        y_kms = y / f
+        for val in y_kms:
+            best = None
+            for k in range(ns):
+                r = order.index(k)              # 0 = reference survey, r>=1 -> dv0_r
+                off = 0.0 if r == 0 else case["offsets"][r - 1]
+                resid = val + off - 1000.0 * (k + 1)
+                if -1e-6 <= resid <= case["sizes"][k] - 1 + 1e-6 and abs(resid - round(resid)) < 1e-6:
+                    best = k
+            if best is None:
+                raise Violation("a plotted velocity is not an observation with its own survey's offset removed",
+                                plotted_km_s=float(val), offsets=case["offsets"], keys=keys, kind=case["kind"], which=case["which"])
+        ctx.note_case(case, True, ["plot:" + case["which"], "plot:kind=" + case["kind"], "plot:ns=%d" % ns])
+
+    return body
+
+
 def run(ctx):
+    ctx.search("plots", plot_cases(), plot_body_factory(ctx), quick=300, thorough=6000)
     ctx.search("labels", tagged(thorough=not ctx.quick), labels_body_factory(ctx), quick=1500, thorough=40000)
     ctx.search("likelihood", multi_cases(thorough=not ctx.quick), likelihood_body_factory(ctx), quick=500, thorough=12000)
